@@ -40,7 +40,19 @@ out.append('For every property fresh sub-agents, given only the property text an
  'demo_test.go, README.md, meta.json). `seedtest.sh <ID> <patch>` runs the check against a scratch worktree of\n'
  '`/repo` HEAD with the patch applied. Where a change was missed the check was strengthened (generator,\n'
  'fault mode or history family — never by special-casing the seeded input) until it was reported; those rows\n'
- 'say so. Generated from `seeded/*/meta.json`.\n')
+ 'say so. Generated from `seeded/*/meta.json`.\n\n'
+ 'Five rounds of three changes per property were run (each later round was told the earlier ideas and had to\n'
+ 'use a different mechanism). The share missed at first did not fall from round to round (about a third in\n'
+ 'round 1, about half to two thirds in rounds 2 to 5): each round found input shapes, fault modes or histories the\n'
+ 'workloads did not yet contain, which is the honest measure of what a finite workload reaches. After the last\n'
+ 'round every kept change was applied to `/repo` itself (`git -C /repo apply`; `./check <id> quick`, or the tier\n'
+ 'named by `check_tier`; `git -C /repo checkout -- .`) at VERIF_SEED=1, and run again in scratch worktrees at\n'
+ 'VERIF_SEED=3 (`tools/seed_sweep.sh`): all are reported at both seeds (`detected_at_verif_seed` in meta.json),\n'
+ 'with these qualifications: C05-9 needs 10 s of wall-clock time and is in the thorough tier only; C01-15 and\n'
+ 'C08-9 break a clause that belongs to another property\'s statement and are reported by that check (C03, C09;\n'
+ '`check_property` in meta.json); C13-14 was judged not to violate C13 as stated and is deliberately not\n'
+ 'reported (its row says why). Detections that held at one PRNG seed only (C09-2, C08-9, C09-6, C10-15) were\n'
+ 'turned into fixed shares of every run.\n')
 out.append('| seed | needs, in order to manifest | reported by |\n|---|---|---|')
 def key(p):
     m=re.match(r'.*/(C\d\d)-(\d+)', p); return (m.group(1), int(m.group(2)))
